@@ -409,6 +409,13 @@ theorem metrics_after_history (ne np nc : Nat) (es : List C12.Edit) (hok : C12.H
   obtain ⟨⟨P, g⟩, hh⟩ := C12.groupHyp_on_every_reachable_circuit ne np nc es hok
   exact ⟨P, g, sched_exists g, fun L hS => metrics_eq_spec_on_any_schedule g hh.plain hS⟩
 
+/-- the same from ANY starting circuit that satisfies DagInv and holds graphiq-constructed operations (e.g. a circuit some other
+    history produced, or one imported from openQASM/JSON by a sequence of `add`s) -/
+theorem metrics_after_history_from {c : Dag} (h : DagInv c) (hh : GroupHyp c) (es : List C12.Edit) (hok : C12.HistOKg c es) :
+    MetricsMeetSpec (C12.run c es) (wireOpList (C12.run c es)) := by
+  obtain ⟨⟨P, g⟩, hh'⟩ := C12.history_groupHyp es h hh hok
+  exact metrics_eq_spec_of_wires g hh'.plain
+
 /-- … in closed form: the metrics of the reached circuit are the specifications evaluated on `wireOpList` of it, a computable
     function of the wires `reg_gate_history` returns and of the node operations -/
 theorem metrics_after_history_of_wires (ne np nc : Nat) (es : List C12.Edit) (hok : C12.HistOKg (Dag.init ne np nc) es) :
